@@ -4,6 +4,7 @@
 import Lmd.Render
 import Lmd.Print
 import Lmd.Frame
+import Lmd.Sync
 
 open Lean (Json)
 open Lmd
@@ -96,6 +97,23 @@ def parseBackend (s : Schema) (j : Json) : Backend :=
     state := st, err := jStr j "error", hasData := st == .up || st == .warning, addr := "verif.sock",
     tables := (jFields (jObj j "tables")).map fun (name, tj) =>
       (name, parseRows ((s.table? name).getD { name := name, cols := [] }) tj) }
+
+def parseReply (j : Json) : List ReplyRow :=
+  let cols := jStrs j "cols"
+  (jArr j "rows").map fun row =>
+    let vals := match row with | .arr a => a.toList | _ => []
+    cols.zip vals
+
+/-- a backend whose tables are raw replies (any row order): the cache is what `syncBackend` builds -/
+def parseSyncedBackend (s : Schema) (j : Json) : Backend :=
+  let b := parseBackend s (j.setObjVal! "tables" (Json.mkObj []))
+  let tables := (jFields (jObj j "tables")).map fun (name, tj) => (name, parseReply tj)
+  { b with tables := syncBackend s tables }
+
+def parseSyncedDataset (s : Schema) (j : Json) : Dataset :=
+  { backends := (jArr j "backends").map (parseSyncedBackend s),
+    serviceAuthLoose := jStr j "service_auth" != "strict",
+    groupAuthLoose := jStr j "group_auth" == "loose" }
 
 def parseDataset (s : Schema) (j : Json) : Dataset :=
   { backends := (jArr j "backends").map (parseBackend s),
@@ -311,6 +329,7 @@ def handleQuery (st : State) (j : Json) : Json :=
 def step (st : State) (j : Json) : State × Option Json :=
   match jStr j "op" with
   | "dataset" => ({ st with ds := parseDataset st.schema (jObj j "dataset") }, none)
+  | "sync" => ({ st with ds := parseSyncedDataset st.schema (jObj j "dataset") }, none)
   | "query" => (st, some (handleQuery st j))
   | "frame" =>
     let hdr := fixed16Header (jNat j "code") (jNat j "size")
